@@ -254,7 +254,7 @@ def body(m, cfg):
             # conversion is involved (as C07)
             from harness.c07 import _verdict_ok
             exact = (ua == ub)
-            fs = [_verdict_ok(m, CMPOP[fn], g, m.t(x) * fa, m.t(y) * fb, exact) for g, x, y in zip(got, av, bv)]
+            fs = [_verdict_ok(m, CMPOP[fn], g, m.t(x) * fa, m.t(y) * fb, exact, tol=C.tol_for(ua, ub)) for g, x, y in zip(got, av, bv)]
             m.check("predicate agrees with the physical comparison", m.And(fs), key=f"value:{tag}")
         else:
             m.require(got == [bool(v) for v in np.asarray(ex).ravel().tolist()],
